@@ -19,7 +19,7 @@
    the body of another (its quanta lie between two quanta of the outer one).
    [trace t] = the driver calls made on behalf of transaction t, in order. *)
 From Coq Require Import List ZArith Bool Sorted.
-From GZ Require Import C14.Model C14.Check C14.ProofsA C14.ProofsB C14.ProofsC C14.ProofsD C14.ProofsE.
+From GZ Require Import C14.Model C14.Check C14.ProofsA C14.ProofsB C14.ProofsC C14.ProofsD C14.ProofsE C14.ProofsF.
 Import ListNotations.
 Open Scope Z_scope.
 
@@ -231,6 +231,18 @@ Theorem transactions_do_not_interfere : forall g scs sched orc t,
 Proof. intros g scs sched orc t. exact (solo_l ret_of g scs sched orc t). Qed.
 Print Assumptions transactions_do_not_interfere.
 
+(* HOW the caller's context ends — cancelled (context.Canceled) or past its deadline
+   (context.DeadlineExceeded), before the call, from the body, or during any driver call — makes no
+   difference to what reaches the driver: the run in which every context ends the one way and the run in
+   which it ends the other way make the same driver calls, in the same order, on the same connections,
+   with the same answers, and consume the same script.  (Only the sentinel inside the errors differs;
+   together with [ends_exactly_once]: the context never ends a transaction, and never keeps it open.) *)
+Theorem deadline_or_cancel_same_driver_calls : forall b g scs sched orc,
+  wlog (exec g (map (set_dl b) scs) sched orc) = wlog (exec g scs sched orc) /\
+  worc (exec g (map (set_dl b) scs) sched orc) = worc (exec g scs sched orc).
+Proof. exact deadline_or_cancel_same_calls_l. Qed.
+Print Assumptions deadline_or_cancel_same_driver_calls.
+
 (* A nested call is its own transaction.  Every Transact / TransactCtx call that is let through —
    wherever its quanta lie in the schedule, in particular between two quanta of another transaction
    (a call made on the pool from INSIDE that one's body, on the same SqlConn object, another one, or
@@ -386,4 +398,14 @@ Example ex_begin_repeated_by_database_sql :
   wlog W = [mkEnt 0 7 CBeginRetry OFail (mkVal VBadConn MBare); mkEnt 0 8 CBeginRetry OFail (mkVal VBadConn MBare);
             mkEnt 0 9 CBegin OOk vgen; mkEnt 0 9 (CStmt 0 KExec) OOk vgen; mkEnt 0 9 CCommit OOk vgen] /\
   proj 0 (wlog W) = [mkEnt 0 9 CBegin OOk vgen; mkEnt 0 9 (CStmt 0 KExec) OOk vgen; mkEnt 0 9 CCommit OOk vgen].
+Proof. vm_compute. auto. Qed.
+
+(* the context passes its deadline while the first statement is in flight: the next statement is refused with
+   context.DeadlineExceeded, the body returns it, the transaction is rolled back (mutation m18 returned
+   without: "database/sql has rolled back already") *)
+Example ex_deadline_during_statement :
+  let W := exec true [mkScript true false true true true 1 [] [st MExec FStop; st MExec FStop] RNil 0] [0; 0; 0]%nat
+                [ok; mkReply OOk true vgen] in
+  wlog W = [mkEnt 0 1 CBegin OOk vgen; mkEnt 0 1 (CStmt 0 KExec) OOk vgen; mkEnt 0 1 CRollback OOk vgen] /\
+  map tst (wthreads W) = [TDone (mkRes 1 (Some (BErr (BCtx 1 true))) (RetErr (EBody (BCtx 1 true))) false)].
 Proof. vm_compute. auto. Qed.
